@@ -146,6 +146,17 @@ def annsStr (l : List Ann) : String :=
 
 partial def pPairs : P (List (Bytes × Bytes)) := pMany (do let k ← pBytes; let v ← pBytes; pure (k, v))
 
+partial def cvStr : CV → String
+  | .dbl b => s!"D {b}"
+  | .int i => s!"I {i}"
+  | .lit v => "L " ++ VL.hexEncode v
+  | .ident v => "X " ++ VL.hexEncode v
+  | .list l => s!"S {l.length}" ++ String.join (l.map fun x => " " ++ cvStr x)
+  | .map m => s!"M {m.length}" ++ String.join (m.map fun (k, v) => " " ++ cvStr k ++ " " ++ cvStr v)
+  | .unset => "Z"
+
+def pPfPairs : P (List (Bytes × Nat)) := pMany (do let t ← pBytes; let b ← pNat; pure (t, b))
+
 def handleLine (line : String) : String :=
   match VL.toks line with
   | "F" :: _ :: rest =>
@@ -175,6 +186,24 @@ def handleLine (line : String) : String :=
     match pPairs.run (rest, []) with
     | some (ps, ([], _)) => "ok " ++ annsStr (annRegroup ps)
     | _ => "bad-op"
+  | "V" :: h :: rest =>
+    match VL.hexDecode h, pPfPairs.run (rest, []) with
+    | some s, some (ps, ([], _)) =>
+      let pf := fun t => match ps.find? (fun p => p.1 = t) with | some p => p.2 | none => 0
+      match readCV pf (s.length + 2) s with
+      | some (v, r) => if restOk r then "ok " ++ cvStr v else "other"
+      | none => "other"
+    | _, _ => "bad-op"
+  | ["P", h] =>
+    match VL.hexDecode h with
+    | none => "bad-op"
+    | some s =>
+      match readAnnotations s with
+      | some (l, r) =>
+        -- a struct definition takes no list separator after its annotations: only blanks or a comment may follow
+        let r1 := r.dropWhile (fun c => c = 32 || c = 9)
+        if r1.isEmpty || r1.head? == some 35 then ("ok " ++ annsStr l).trimAscii.toString else "other"
+      | none => "other"
   | ["U", h] =>
     match VL.hexDecode h with
     | some s => "ok " ++ VL.hexEncode (htmlUnescape s)
